@@ -40,7 +40,8 @@ MIN_NONTRIVIAL = {'quick': 500, 'thorough': 4000}
 REQUIRED = ('pluribus_lines_compared', 'acpc_viewer_sequences_compared',
             'loops_closed', 'fixed_limit_hands', 'no_limit_hands',
             'allin_hands', 'showdown_hands', 'folded_out_hands',
-            'raise_amounts_rendered', 'min_bet_differs_from_big_blind')
+            'raise_amounts_rendered', 'min_bet_differs_from_big_blind',
+            'hands_with_manual_mucks')
 
 
 def render(state, variant, hand_number, players=None):
@@ -169,6 +170,14 @@ def check_case(res, rng):
     pol['partial_show'] = False
     if pol['deal'] in ('unknown',):
         pol['deal'] = 'default'
+    if rng.random() < 0.12:
+        # players who muck hands the automation would have shown (winners
+        # included): the recorded muck must stay a muck
+        pol['muck'] = 'any'
+        pol['muck_p'] = rng.choice([0.3, 0.6])
+        pol['policy'] = 'passive'
+        cfg['autos'] = [a for a in cfg['autos']
+                        if a != 'HOLE_CARDS_SHOWING_OR_MUCKING']
     ctx = driver.play_hand(cfg, pol, [], PROP)
     if ctx.state is None or 'ctor_exc' in ctx.data or 'op_exc' in ctx.data \
             or ctx.state.status:
@@ -176,6 +185,10 @@ def check_case(res, rng):
         return
     s = ctx.state
     res.evaluations += 1
+    if any(type(o).__name__ == 'HoleCardsShowingOrMucking'
+           and not o.hole_cards for o in s.operations) and \
+            'HOLE_CARDS_SHOWING_OR_MUCKING' not in cfg['autos']:
+        res.counters['hands_with_manual_mucks'] += 1
     if not cfg['game'].startswith('Fixed') and cfg['gargs'][3] != cfg['bb']:
         res.counters['min_bet_differs_from_big_blind'] += 1
     variant = 'FT' if cfg['game'].startswith('Fixed') else 'NT'
@@ -257,7 +270,14 @@ def check_case(res, rng):
                     f'({len(got)} vs {len(views[p])} messages) || {what}',
                     payload)
                 return
-        # loop closure
+        # loop closure (the protocol line shows every seat's cards and has
+        # no way to say "this hand was mucked": hands in which a player
+        # mucked a hand the automatic rule would have shown cannot come back
+        # from the line, and are judged on the renderers only)
+        if pol.get('muck') == 'any':
+            res.counters['renderer_only_hands'] += 1
+            res.sigs.add(sig(variant, cfg['n'], 'mucks', line.split(':')[2]))
+            return
         try:
             parsed = list(HandHistory.from_acpc_protocol(
                 game, stack, line, error_status=True))
